@@ -146,8 +146,12 @@ def timer_lemma(workdir):
                            ["--out-dir=" + os.path.join(workdir, "apalache"), "TimerInd.tla"],
                            cwd=os.path.join(common.VERIF, "spec"), stdout=subprocess.PIPE, stderr=subprocess.STDOUT, text=True)
         ok = "EXITCODE: OK" in p.stdout
-        err = "Checker has found an error" in p.stdout
-        if ok != expect_ok or (not expect_ok and not err):
+        err = "Checker has found an error" in p.stdout and "EXITCODE: ERROR (12)" in p.stdout
+        if not ok and not err:
+            # the tool itself failed (crash, time limit): the lemma is auxiliary, the verdict does not depend on it
+            common.log("Apalache did not run obligation '%s' to the end: %s" % (name, p.stdout[-400:].replace("\n", " | ")))
+            return {"tool": "apalache-mc 0.58", "module": "spec/TimerInd.tla", "not_run": "obligation '%s': tool failure" % name}
+        if ok != expect_ok:
             raise common.ToolError("Apalache: obligation '%s' of TimerInd.tla: unexpected outcome\n%s" % (name, p.stdout[-1500:]))
         out["obligations"].append({"name": name, "args": " ".join(args), "outcome": "holds" if ok else "fails as it must", "wall_s": round(time.time() - t0, 1)})
     with open(cp, "w") as f:
